@@ -13,6 +13,7 @@ import (
 	"pgregory.net/rapid"
 
 	"verif/harness/attest"
+	"verif/harness/chain"
 	"verif/harness/refcodec"
 	"verif/harness/sim"
 )
@@ -1019,5 +1020,31 @@ var C08 = register(&HistProp{ID: "C08",
 				"PauseBurningAndMinting", "UnpauseBurningAndMinting", "PauseSendingAndReceivingMessages", "UnpauseSendingAndReceivingMessages"}}.next(g)
 	},
 	MinOps: 3, MaxOps: 25,
+	Prelude: c08prelude,
 	New: func() Checker { return &strict{id: "C08", applies: isDeposit, extra: c08extra} },
 	Require: []string{"nontrivial", "accepted", "amount=limit+0", "amount=limit+1", "max-body=132", "max-body=131", "false:can-pay", "false:burn-ok", "false:messenger", "false:caller"}})
+
+// c08prelude: depositors whose account address is not 20 bytes long (32-byte addresses are what interchain and
+// module-derived accounts have; 1 and 255 bytes are the ends of what the SDK calls an address). The statement's
+// preconditions do not mention the depositor's address length: such a depositor that can pay is served like any other.
+func c08prelude() []*sim.Case {
+	chain.SetupSDK()
+	var out []*sim.Case
+	for _, n := range []int{32, 1, 21, 255} {
+		raw := make([]byte, n)
+		for i := range raw {
+			raw[i] = byte(0x41 + i%23)
+		}
+		by := sdk.AccAddress(raw).String()
+		gs := enumGenesis([4]int{0, 1, 2, 3})
+		gs.Ledger.Balances = append(gs.Ledger.Balances, chain.LedgerBal{Addr: by, Denom: "uusdc", Amount: "5000"})
+		mr := sim.Pad32([]byte{7, 7})
+		out = append(out, &sim.Case{Gen: gs, Ops: []*sim.Op{
+			sim.TxOp("admin", &types.MsgSetMaxBurnAmountPerMessage{From: sim.Acct(3), LocalToken: "uusdc", Amount: sim.Int(big.NewInt(1000))}),
+			sim.TxOp("dep", &types.MsgDepositForBurn{From: by, Amount: sim.Int(big.NewInt(1000)), DestinationDomain: 0, MintRecipient: mr, BurnToken: "uusdc"}),
+			sim.TxOp("dep", &types.MsgDepositForBurn{From: by, Amount: sim.Int(big.NewInt(1001)), DestinationDomain: 0, MintRecipient: mr, BurnToken: "uusdc"}),
+			sim.TxOp("depc", &types.MsgDepositForBurnWithCaller{From: by, Amount: sim.Int(big.NewInt(999)), DestinationDomain: 0, MintRecipient: mr, BurnToken: "uusdc", DestinationCaller: sim.Pad32([]byte{9})}),
+		}})
+	}
+	return out
+}
